@@ -140,10 +140,16 @@ def cleanup_nodes():
     _nodes.clear()
 
 
-def new_node(cfg):
+OMIT_WINDOW = 1e6       # seconds: every announcement of an unchanged value (without a pending error) is omitted
+OMIT_MODELLED = {'floatenum'}   # families whose model covers the omission of unchanged updates (the others: judged only)
+
+
+def new_node(cfg, omit=False):
+    """omit: run with `omit_unchanged_within` practically infinite instead of 0 (frappy's default is 0.1 s: whether an
+    unchanged value is announced again - callbacks included - depends on timing; the two extremes are deterministic)"""
     if len(_nodes) >= 50:
         cleanup_nodes()
-    node = Node(cfg, omit_unchanged_within=0)
+    node = Node(cfg, omit_unchanged_within=OMIT_WINDOW if omit else 0)
     _nodes.append(node)
     if node.errors:
         raise RuntimeError(f'node errors: {node.errors}')
@@ -221,7 +227,7 @@ def impl_struct(case):
     cur = {}
     case = struct_case(case)
     cls = build_struct_class(case, cur)
-    node, conn = new_node({'m': {'cls': cls, 'description': 'x'}})
+    node, conn = new_node({'m': {'cls': cls, 'description': 'x'}}, case.get('omit', False))
     mod = node.modules['m']
     members, prefix = case['members'], case['prefix']
 
@@ -434,7 +440,7 @@ def impl_floatenum(case):
     """-> (vdict [[idx, float]], lo, hi, trace)"""
     cur = {}
     cls = build_fe_class(case, cur)
-    node, conn = new_node({'m': {'cls': cls, 'description': 'x'}})
+    node, conn = new_node({'m': {'cls': cls, 'description': 'x'}}, case.get('omit', False))
     mod = node.modules['m']
     pobj = mod.parameters['x']
     vdict = [[int(k), float(v)] for k, v in pobj.valuedict.items()]
@@ -448,7 +454,8 @@ def impl_floatenum(case):
             elif par == '_x_idx':
                 evs.append(['idx', int(val)])
         # what a client reads: the reply of a `read` request is the cache entry
-        return {'idx': int(mod.parameters['x_idx'].value), 'value': float(pobj.value), 'evs': evs, 'ok': ok,
+        return {'idx': int(mod.parameters['x_idx'].value), 'value': float(pobj.value),
+                'idxErr': mod.parameters['x_idx'].readerror is not None, 'valErr': pobj.readerror is not None, 'evs': evs, 'ok': ok,
                 'exc': exc, 'write': write, 'assign': assign, 'selected': cur.get('selected')}
 
     trace = [snapshot(True)]
@@ -521,7 +528,8 @@ def fe_requests(case, vdict, lo, hi, trace):
             ops.append(op[:-1])
     wvd = [[i, sc(v)] for i, v in vdict]
     model = {'p': 'C18', 'k': 'floatenum', 'vdict': wvd, 'lo': sc(lo), 'hi': sc(hi), 'hasR': case['hasR'],
-             'hasW': case['hasW'], 'idx0': trace[0]['idx'], 'ops': ops}
+             'hasW': case['hasW'], 'omit': bool(case.get('omit')), 'idx0': trace[0]['idx'], 'idxErr0': trace[0]['idxErr'],
+             'valErr0': trace[0]['valErr'], 'ops': ops}
     jtrace = [{'write': None if t['write'] is None else sc(t['write']),
                'assign': None if t.get('assign') is None else sc(t['assign']), 'ok': t['ok'], 'selected': t['selected'],
                'idx': t['idx'], 'value': sc(t['value']) if Fraction(t['value']) * den % 1 == 0 else None}
@@ -531,7 +539,7 @@ def fe_requests(case, vdict, lo, hi, trace):
         if t['value'] is None:
             t['value'] = sc(lo) - 1
     judge = {'p': 'C18', 'k': 'judge_floatenum', 'vdict': wvd, 'trace': jtrace}
-    canon = [{'idx': t['idx'], 'value': jt['value'],
+    canon = [{'idx': t['idx'], 'value': jt['value'], 'idxErr': t['idxErr'], 'valErr': t['valErr'],
               'evs': [[e[0], sc(e[1]) if e[0] == 'value' else e[1]] for e in t['evs']], 'ok': t['ok'], 'exc': t['exc']}
              for t, jt in zip(trace, jtrace)]
     return model, judge, canon
@@ -854,7 +862,7 @@ def build_limits_class(case, cur):
 def impl_limits(case):
     cur = {}
     cls = build_limits_class(case, cur)
-    node, conn = new_node({'m': {'cls': cls, 'description': 'x'}})
+    node, conn = new_node({'m': {'cls': cls, 'description': 'x'}}, case.get('omit', False))
     mod = node.modules['m']
     p = case['pname']
 
@@ -1084,7 +1092,7 @@ def impl_control(case):
         cfg[f'out{o}'] = {'cls': Out, 'description': 'x'}
     for k in range(n):
         cfg[f'in{k}'] = {'cls': In, 'description': 'x', 'output_module': f'out{outs_of[k]}'}
-    node, conn = new_node(cfg)
+    node, conn = new_node(cfg, case.get('omit', False))
     outs = [node.modules[f'out{o}'] for o in range(nout)]
     ins = [node.modules[f'in{k}'] for k in range(n)]
 
@@ -1339,7 +1347,10 @@ def run(ctx):
     per = ctx.budget(500, 6250)
     for kind in ('struct', 'floatenum', 'limits', 'control'):
         for _ in range(per):
-            cases.append(GENS[kind](rng, big))
+            case = GENS[kind](rng, big)
+            if 'omit' not in case and case['kind'] != 'labels':
+                case['omit'] = rng.random() < 0.4
+            cases.append(case)
     for _ in range(per):       # glue in front of the float/enum model: correspondence only
         cases.append(gen_labels(rng, big))
 
@@ -1414,7 +1425,10 @@ def _run_chunk(ctx, res, cases, offset, ncorpus, shrunk):
         if len(res.samples) < 6 and j >= ncorpus and len(case['ops']) <= 5 and nontrivial(case, trace) \
                 and sum(1 for s in res.samples if s['kind'] == kind) < SAMPLES_PER_KIND[kind]:
             res.samples.append({'kind': kind, 'case': case, 'observed': impl_obs(case, canon)})
-        if ctx.model_ok:
+        if case.get('omit'):
+            res.count(f'{kind}.omit-unchanged-updates')
+        # histories run with omission of unchanged updates are judged; compared with the model where the model covers it
+        if ctx.model_ok and (not case.get('omit') or kind in OMIT_MODELLED):
             mo, io = model_obs(case, model), impl_obs(case, canon)
             d = first_diff(mo, io)
             if d is not None and len(res.disagreements) < 20:
